@@ -109,6 +109,9 @@ def run(c):
         maps.append((m, {"names:near-duplicates"}))
     for cnt in (31, 32, 33, 63, 64, 65, 127, 128, 129, 255, 256, 257, 500) + (() if c.quick else (1000, 1024, 1025, 4000)):
         maps.append(({"f%d" % j: "v%d" % j for j in range(cnt)}, {"size:fields-%d" % cnt}))
+    for cnt in (999, 1000, 1001, 1023, 1024, 1025, 1200):
+        # short names and values: a thousand fields still fit into one read of the echo endpoints
+        maps.append(({"%x" % j: "%d" % (j % 10) for j in range(cnt)}, {"size:fields-%d" % cnt}))
     for i in range(n):
         m, feats = gen_map(rng)
         maps.append((m, feats))
